@@ -71,7 +71,18 @@ function call(msg) {
     else if (m.q === "resolve") a = globalThis.resolve_import(m.from, m.spec) ?? null;
     else if (m.q === "emit") {
       if (globalThis.__last_build) globalThis.__last_build.emitted.push(m.json);
-      globalThis.emit_diagnostic(m.json);
+      // what the host PRINTS for these diagnostics (message, location, the quoted lines of the file) is output of
+      // the build as well: taken down here, compared like the rest
+      const __saved = { log: console.log, error: console.error, warn: console.warn, info: console.info };
+      const __out = [];
+      const __put = (k) => (...a) => __out.push(k + " " + a.map(String).join(" "));
+      console.log = __put("L"); console.error = __put("E"); console.warn = __put("W"); console.info = __put("I");
+      try {
+        globalThis.emit_diagnostic(m.json);
+      } finally {
+        Object.assign(console, __saved);
+      }
+      if (globalThis.__last_build) globalThis.__last_build.printed.push(__out.join("\\n"));
     }
     fs.writeSync(B.tx, JSON.stringify({ a }) + "\\n");
   }
@@ -82,7 +93,7 @@ module.exports = {
   update_file_content(f, c) { rec("update_file_content", [f, c]); call({ call: "update", file: f, content: c }); },
   bundle_to_string_v2(entry, settings) {
     rec("bundle_to_string_v2", [entry, settings]);
-    globalThis.__last_build = { emitted: [], code: undefined, n: (globalThis.__builds = (globalThis.__builds || 0) + 1) };
+    globalThis.__last_build = { emitted: [], printed: [], code: undefined, n: (globalThis.__builds = (globalThis.__builds || 0) + 1) };
     const r = call({ call: "string", entry, settings });
     globalThis.__last_build.code = r ?? null;
     return r ?? undefined;
@@ -366,7 +377,7 @@ async function execHistory(T, run, base) {
           res.skipped = "the compiler panicked (the C04 check's business)";
           break;
         }
-        const sess = globalThis.__last_build ? { code: globalThis.__last_build.code, emitted: globalThis.__last_build.emitted } : null;
+        const sess = globalThis.__last_build ? { code: globalThis.__last_build.code, emitted: globalThis.__last_build.emitted, printed: globalThis.__last_build.printed || [] } : null;
         const sessDisk = fs.existsSync(outFile) ? fs.readFileSync(outFile, "utf8") : null;
         const sessWatchers = globalThis.__watchers;
         const sessCalls = globalThis.__wasm_calls;
@@ -381,7 +392,7 @@ async function execHistory(T, run, base) {
         try {
           startProcess(false, (op.fresh_hash_seeds && op.fresh_hash_seeds[0]) || 11);
           await settle();
-          fresh = globalThis.__last_build ? { code: globalThis.__last_build.code, emitted: globalThis.__last_build.emitted } : null;
+          fresh = globalThis.__last_build ? { code: globalThis.__last_build.code, emitted: globalThis.__last_build.emitted, printed: globalThis.__last_build.printed || [] } : null;
           freshDisk = fs.existsSync(outFile) ? fs.readFileSync(outFile, "utf8") : null;
         } finally {
           closeBridges();
@@ -407,9 +418,12 @@ async function execHistory(T, run, base) {
         }
         if (!sess || !fresh) continue;
         res.compared++;
+        if (sess.printed.length) res.printed_compared = (res.printed_compared || 0) + 1;
         const strip = (s) => (s == null ? s : s.split(root).join("<ROOT>"));
         if (canon({ code: sess.code, emitted: sess.emitted.map(strip) }) !== canon({ code: fresh.code, emitted: fresh.emitted.map(strip) })) {
           viol("e2e-session-build-differs-from-a-fresh-process", { op_index: i, session: { code: sess.code == null ? null : `${sess.code.length} bytes #${fnv32(sess.code).toString(16)}`, emitted: sess.emitted.map(strip) }, fresh: { code: fresh.code == null ? null : `${fresh.code.length} bytes #${fnv32(fresh.code).toString(16)}`, emitted: fresh.emitted.map(strip) } });
+        } else if (canon(sess.printed.map(strip)) !== canon(fresh.printed.map(strip))) {
+          viol("e2e-printed-diagnostics-differ-from-a-fresh-process", { op_index: i, session: sess.printed.map(strip).join("\n").slice(0, 1500), fresh: fresh.printed.map(strip).join("\n").slice(0, 1500) });
         } else if (fresh.code != null && sessDisk !== freshDisk) {
           viol("e2e-generated-file-differs-from-a-fresh-process", { op_index: i, session: sessDisk == null ? null : `${sessDisk.length} bytes #${fnv32(sessDisk).toString(16)}`, fresh: freshDisk == null ? null : `${freshDisk.length} bytes #${fnv32(freshDisk).toString(16)}` });
         }
@@ -491,7 +505,7 @@ async function execOneShot(T, run, base) {
     const f = path.join(rootA, "e2e_out/parser.js");
     const strip = (x) => (x == null ? x : x.split(rootB).join("<ROOT>").split(rootA).join("<ROOT>"));
     const lb = globalThis.__last_build;
-    return { code: lb ? lb.code : undefined, emitted: lb ? lb.emitted.map(strip) : null, disk: fs.existsSync(f) ? fs.readFileSync(f, "utf8") : null };
+    return { code: lb ? lb.code : undefined, emitted: lb ? lb.emitted.map(strip) : null, printed: lb ? (lb.printed || []).map(strip) : null, disk: fs.existsSync(f) ? fs.readFileSync(f, "utf8") : null };
   };
   try {
     console.error = console.log = console.warn = console.info = () => {};
@@ -518,8 +532,8 @@ async function execOneShot(T, run, base) {
         continue;
       }
       res.compared++;
-      if (canon({ c: o.code, e: o.emitted }) !== canon({ c: baseOut.code, e: baseOut.emitted }) || o.disk !== baseOut.disk) {
-        const what = o.code !== baseOut.code ? "code" : canon(o.emitted) !== canon(baseOut.emitted) ? "diagnostics" : "generated file";
+      if (canon({ c: o.code, e: o.emitted, p: o.printed }) !== canon({ c: baseOut.code, e: baseOut.emitted, p: baseOut.printed }) || o.disk !== baseOut.disk) {
+        const what = o.code !== baseOut.code ? "code" : canon(o.emitted) !== canon(baseOut.emitted) ? "diagnostics" : canon(o.printed) !== canon(baseOut.printed) ? "printed diagnostics" : "generated file";
         if (!res.violations.length) res.violations.push({ class: "e2e-one-shot-output-depends-on:" + v.name, detail: { differs_in: what, symlinked_packages: linked, base: { code: baseOut.code == null ? null : "#" + fnv32(baseOut.code).toString(16), emitted: baseOut.emitted }, here: { code: o.code == null ? null : "#" + fnv32(o.code).toString(16), emitted: o.emitted } } });
       }
     }
@@ -669,6 +683,7 @@ async function runRange(lo, hi) {
       agg.compared_with_a_fresh_one_shot_process += res.compared || 0;
       agg.change_events += res.events || 0;
       agg.builds_in_watch_sessions += res.builds || 0;
+      agg.comparisons_in_which_the_host_printed_diagnostics = (agg.comparisons_in_which_the_host_printed_diagnostics || 0) + (res.printed_compared || 0);
       agg.checkpoints_reached_while_a_watched_file_other_than_the_entry_point_was_gone = (agg.checkpoints_reached_while_a_watched_file_other_than_the_entry_point_was_gone || 0) + (res.compared_while_a_watched_file_was_gone || 0);
       if (idx >= WS_BASE && ONESHOT) {
         agg.projects_with_a_package.projects++;
